@@ -149,9 +149,7 @@ func (x *Exec) harnessArgs(st *State, fn *ssa.Function, c *FnContract, op int) [
 			}
 			bv.F[i] = av.F[fieldIdx(cpuT, n)]
 		}
-		// bus debug byte of the alternative interpreter is free; callbacks: none registered
-		av.F[fieldIdx(cpuT, "OnPC")] = MapV{}
-		bv.F[fieldIdx(altT, "OnPC")] = MapV{}
+		// bus debug byte of the alternative interpreter is free; both share one (arbitrary) OnPC map and OnWDM hook
 		content := mem0
 		if op >= 0 {
 			content = Store(mem0, pc24(av, cpuT), opTerm)
